@@ -123,9 +123,11 @@ def check_sbatch(scn, r, v, sim):
     if got != want or (gi % 2 == 0 and "qos" in o):
         v.append(C.viol("C07:wrong-group-hpc-parameters", f"{tag} of group g{gi}: #SBATCH {o}; expected {want}"))
     ro = r["run_opts"]
-    want_ro = [f"--output={sim.out}", "--distributed-submitter"]
+    want_ro = [f"--output={sim.out}", "--distributed-submitter" if scn.get("dsub", True) else "--no-distributed-submitter"]
     if g["nproc"] is not None:
         want_ro.append(f"--num-parallel-processes-per-node={g['nproc']}")
+    if g.get("verbose"):
+        want_ro.append("--verbose")
     if ro != want_ro:
         v.append(C.viol("C07:wrong-run-options", f"{tag} of group g{gi}: run options {ro}; expected {want_ro}"))
     on_disk = set(r["results_on_disk"])
